@@ -11,7 +11,11 @@ use std::process::{Child, Command, Stdio};
 use std::sync::mpsc;
 use std::time::{Duration, Instant};
 
+pub const SECOND_OFFSET: u64 = 1_000_000_000;
+
 pub struct CheckArgs {
+    /// (executable, profile name) of a second build profile to run a quarter of the budget under
+    pub second: Option<(PathBuf, String)>,
     pub prop: String,
     pub tier: Tier,
     pub seed: u64,
@@ -139,20 +143,25 @@ fn output_with_timeout(cmd: &mut Command, limit: Duration) -> std::io::Result<st
     })
 }
 
-pub fn run_check(fam: &dyn Family, a: &CheckArgs) -> i32 {
-    let t0 = Instant::now();
-    let exe = std::env::current_exe().expect("current_exe");
-    let total = a.count_override.unwrap_or_else(|| fam.count(&a.prop, a.tier));
-    let jobs = a.jobs.max(1).min(total.max(1) as usize);
+struct Pass {
+    reports: Vec<Report>,
+    dead_scenarios: Vec<(u64, String)>,
+    dead_in_reference: Vec<(u64, String)>,
+}
+
+/// Execute scenarios first..first+n with worker processes of `exe`.
+fn run_pass(exe: &Path, a: &CheckArgs, first: u64, n: u64) -> Pass {
+    let total = first + n;
+    let jobs = a.jobs.max(1).min(n.max(1) as usize);
     let (tx, rx) = mpsc::channel::<Msg>();
     let mut workers: Vec<Worker> = vec![];
     for k in 0..jobs {
-        let child = spawn_worker(&exe, a, k, k as u64, total, jobs as u64, tx.clone());
+        let child = spawn_worker(exe, a, k, first + k as u64, total, jobs as u64, tx.clone());
         workers.push(Worker {
             child,
             current: None,
             phase: String::new(),
-            next_start: k as u64,
+            next_start: first + k as u64,
             done: false,
         });
     }
@@ -214,7 +223,7 @@ pub fn run_check(fam: &dyn Family, a: &CheckArgs) -> i32 {
                     }
                     let ns = i + jobs as u64;
                     if ns < total {
-                        let child = spawn_worker(&exe, a, s, ns, total, jobs as u64, tx.clone());
+                        let child = spawn_worker(exe, a, s, ns, total, jobs as u64, tx.clone());
                         workers[s].child = child;
                         workers[s].next_start = ns;
                         continue;
@@ -222,7 +231,7 @@ pub fn run_check(fam: &dyn Family, a: &CheckArgs) -> i32 {
                 } else if !clean && workers[s].next_start < total {
                     // worker exited between scenarios (e.g. after reporting a violation): restart
                     let ns = workers[s].next_start;
-                    let child = spawn_worker(&exe, a, s, ns, total, jobs as u64, tx.clone());
+                    let child = spawn_worker(exe, a, s, ns, total, jobs as u64, tx.clone());
                     workers[s].child = child;
                     continue;
                 }
@@ -243,14 +252,47 @@ pub fn run_check(fam: &dyn Family, a: &CheckArgs) -> i32 {
             Err(mpsc::RecvTimeoutError::Disconnected) => break,
         }
     }
+    Pass {
+        reports,
+        dead_scenarios,
+        dead_in_reference,
+    }
+}
+
+pub fn run_check(fam: &dyn Family, a: &CheckArgs) -> i32 {
+    let t0 = Instant::now();
+    let exe = std::env::current_exe().expect("current_exe");
+    let total = a.count_override.unwrap_or_else(|| fam.count(&a.prop, a.tier));
+    let jobs = a.jobs.max(1).min(total.max(1) as usize);
+    let watchdog = Duration::from_secs(match a.tier {
+        Tier::Quick => 300,
+        Tier::Thorough => 900,
+    });
+    let Pass {
+        mut reports,
+        mut dead_scenarios,
+        mut dead_in_reference,
+    } = run_pass(&exe, a, 0, total);
+    let mut second_count = 0u64;
+    if let Some((exe2, _)) = &a.second {
+        // second build profile (release + debug-assertions + overflow-checks): the library's
+        // debug_assert!s act as extra in-run invariants. Different scenarios (index offset).
+        second_count = (total / 4).max(1);
+        let p2 = run_pass(exe2, a, SECOND_OFFSET, second_count);
+        reports.extend(p2.reports);
+        dead_scenarios.extend(p2.dead_scenarios);
+        dead_in_reference.extend(p2.dead_in_reference);
+    }
+    let total = total + second_count;
     reports.sort_by_key(|r| r.idx);
 
     // scenarios in which a worker died: re-execute alone, in a fresh process
     let mut harness_errors: Vec<String> = vec![];
     let mut violations: Vec<Violation> = vec![];
     for (i, how) in &dead_scenarios {
+        let exe_for = if *i >= SECOND_OFFSET { a.second.as_ref().map(|x| x.0.clone()).unwrap_or(exe.clone()) } else { exe.clone() };
         let st = output_with_timeout(
-            Command::new(&exe)
+            Command::new(&exe_for)
                 .arg("one")
                 .arg(&a.prop)
                 .arg("--tier")
@@ -502,6 +544,7 @@ pub fn run_check(fam: &dyn Family, a: &CheckArgs) -> i32 {
             "seeds_per_hour": if wall > 0.0 { (reports.len() as f64 / wall * 3600.0) as u64 } else { 0 },
             "worker_processes": jobs,
             "build_profile": a.profile,
+            "second_build_profile": a.second.as_ref().map(|x| json!({"profile": x.1, "base_scenarios": second_count})),
             "components": components,
             "known_findings_hit": known_hits,
             "unlisted_violations_seen": n_fresh,
